@@ -34,6 +34,8 @@ type Extra struct {
 	NoStakers  bool              // with Options.PoS: do not put genesis stakers (validators stake by transactions)
 	Periods    [3]uint32         // low / medium / high staking period in blocks (0: thor's default)
 	Cooldown   uint32            // cooldown period in blocks (0: default)
+	EvictAfter uint32            // validator eviction threshold in blocks (0: default)
+	EvictEvery uint32            // eviction check interval in blocks (0: default)
 }
 
 // NewNetX is NewNet plus Extra.
@@ -98,7 +100,8 @@ func NewNetX(o Options, x Extra) *Net {
 		Params:     genesis.Params{ExecutorAddress: &devs[0].Address, MaxBlockProposers: &mbp},
 		ForkConfig: fc,
 		Config: &thor.Config{EpochLength: o.EpochLength, HayabusaTP: &tp, LowStakingPeriod: x.Periods[0],
-			MediumStakingPeriod: x.Periods[1], HighStakingPeriod: x.Periods[2], CooldownPeriod: x.Cooldown},
+			MediumStakingPeriod: x.Periods[1], HighStakingPeriod: x.Periods[2], CooldownPeriod: x.Cooldown,
+			ValidatorEvictionThreshold: x.EvictAfter, EvictionCheckInterval: x.EvictEvery},
 	})
 	must(err)
 	tmp, err := os.MkdirTemp("", "verif-sim-")
@@ -127,6 +130,18 @@ func (n *Net) MintLoose(parentID thor.Bytes32, who int, com bool, minTime uint64
 
 // MintLooseTo is MintLoose with the packer's beneficiary option set to an arbitrary address (nil: the validator itself).
 func (n *Net) MintLooseTo(parentID thor.Bytes32, who int, beneficiary *thor.Address, com bool, minTime uint64, txs ...*tx.Transaction) (*block.Block, tx.Receipts, []Refused, error) {
+	return n.MintLooseOpt(parentID, who, MintOpt{Beneficiary: beneficiary}, com, minTime, txs...)
+}
+
+// MintOpt are the packer options of one minted block.
+type MintOpt struct {
+	Beneficiary    *thor.Address // nil: the validator itself
+	TargetGasLimit uint64        // 0: keep the parent's gas limit
+}
+
+// MintLooseOpt is MintLoose with packer options.
+func (n *Net) MintLooseOpt(parentID thor.Bytes32, who int, opt MintOpt, com bool, minTime uint64, txs ...*tx.Transaction) (*block.Block, tx.Receipts, []Refused, error) {
+	beneficiary := opt.Beneficiary
 	g := n.God
 	parent, err := g.Repo.GetBlockSummary(parentID)
 	if err != nil {
@@ -137,6 +152,9 @@ func (n *Net) MintLooseTo(parentID thor.Bytes32, who int, beneficiary *thor.Addr
 		beneficiary = &acc.Address
 	}
 	p := packer.New(g.Repo, g.Stater, acc.Address, beneficiary, n.FC, 0)
+	if opt.TargetGasLimit != 0 {
+		p.SetTargetGasLimit(opt.TargetGasLimit)
+	}
 	if minTime == 0 {
 		minTime = parent.Header.Timestamp() + thor.BlockInterval()
 	}
